@@ -1,11 +1,22 @@
 """Per-property check configuration: which harnesses run in which package, with which bounds."""
 
+STRVALS = {"pkg": "./pkg/strvals", "files": ["pkg/strvals/h_c04_set.go"]}
+
 CHECKS = {
-    "BRINGUP": {
+    "C04": {
         "runs": [
-            {"pkg": "./pkg/strvals", "files": ["pkg/strvals/h_bringup.go"], "entries": ["HBringupConcrete", "HBringupSym", "HBringupBad"]},
+            dict(STRVALS, entries=["H04SetScalar", "H04SetTyped", "H04SetList", "H04SetLiteral", "H04SetFrame"],
+                 bounds_quick={"maxlen": 5}, bounds_thorough={"maxlen": 7}),
         ],
-        "bounds": {"strings": "k,v: 1..2 symbolic bytes a-z"},
-        "assumptions": ["bring-up only"],
+        "bounds": {"quick": "atoms 1-4 symbolic bytes a-z; list index 0-3; arbitrary-input frame harness: 0-5 symbolic bytes over the 15-symbol alphabet -ay01=,.[]{}\\ and space",
+                   "thorough": "same, frame harness 0-7 bytes"},
+        "assumptions": ["symbolic bytes restricted to ASCII alphabets stated per harness"],
+    },
+    "C20": {
+        "runs": [
+            dict(STRVALS, entries=["H04SetFrame", "H20SetTypeConfusion"], bounds_quick={"maxlen": 5}, bounds_thorough={"maxlen": 6}),
+        ],
+        "bounds": {},
+        "assumptions": [],
     },
 }
